@@ -11,6 +11,9 @@ import (
 // Exec runs the REAL gocql.Unmarshal for one op line `val <proto> <type> <dest> <hex|nil>` and
 // returns the canonical answer `ok` | `err` | `crash:<func>:<kind>`.
 func Exec(w []string) (answer string, mine bool) {
+	if len(w) >= 2 && w[0] == "alloc" && w[1] == "val" {
+		return execAlloc(w)
+	}
 	if len(w) == 0 || w[0] != "val" {
 		return "", false
 	}
